@@ -986,14 +986,24 @@ func Dot(y tensor.Tensor, a tensor.Tensor, b tensor.Tensor) (gctx *GradContext) 
 		backEdges: []*backwardEdge{
 			{
 				target: a,
-				gradFn: func() (tensor.Tensor, error) {
-					return y.Gradient().Mul(b)
+				gradFn: func() (o tensor.Tensor, err error) {
+					gy, err := lastDimRestored(y.Gradient())
+					if err != nil {
+						return
+					}
+
+					return gy.Mul(b)
 				},
 			},
 			{
 				target: b,
-				gradFn: func() (tensor.Tensor, error) {
-					return y.Gradient().Mul(a)
+				gradFn: func() (o tensor.Tensor, err error) {
+					gy, err := lastDimRestored(y.Gradient())
+					if err != nil {
+						return
+					}
+
+					return gy.Mul(a)
 				},
 			},
 		},
